@@ -76,7 +76,7 @@ def gen_config(rng):
     if rng.random() < 0.3:
         for name in ('commit-style', 'file-style', 'hunk-header-style'):
             if rng.random() < 0.6:
-                v = rng.choice(['omit', 'bold yellow', 'raw', 'syntax', 'blue ul'] +
+                v = rng.choice(['omit', 'bold yellow', 'raw', 'syntax', 'blue ul', 'blue box', 'yellow underline', 'bold overline', 'raw box'] +
                                (['file line-number syntax'] if name == 'hunk-header-style' else []))
                 srcs.add(put(name, v))
                 if v == 'omit':
